@@ -47,6 +47,25 @@ fn encode_path(rel: &str) -> String {
     rel.split('/').map(pct).collect::<Vec<_>>().join("/")
 }
 
+/// another spelling of the same path for the handlers that decode once: any byte may be written as %XX (either hex
+/// case), including the separators and the trailing slash of a directory
+fn alt_spelling(rel: &str, rng: &mut Lcg) -> String {
+    let mut o = String::new();
+    for b in rel.bytes() {
+        let unreserved = b.is_ascii_alphanumeric() || b"-_.~".contains(&b);
+        let r = rng.next();
+        let raw = if b == b'/' { r % 2 == 0 } else { unreserved && r % 3 != 0 };
+        if raw {
+            o.push(b as char);
+        } else if (r >> 8) % 2 == 0 {
+            o.push_str(&format!("%{:02X}", b));
+        } else {
+            o.push_str(&format!("%{:02x}", b));
+        }
+    }
+    o
+}
+
 pub fn request(uri: &str) -> Request {
     Request {
         method: Method::Get,
@@ -353,6 +372,31 @@ pub fn check_tree(ctx: &Ctx, seed: u64, paths_per_mount: usize) -> Vec<(Fail, J)
                     if !ok {
                         push(fail!("content-type", "{} served {:?} with Content-Type {:?} (extension {:?})", hname, rel, ct, ext), m, &uri, &mut out);
                     }
+                    // the same file under another percent-spelling of its path (decoded once): same answer
+                    if !matches!(m.handler, Handler::ServeAsFilePath) {
+                        let alt = format!("{}{}", m.prefix(), alt_spelling(rel, &mut rng));
+                        if alt != uri {
+                            ctx.case(hash_of(&(seed, &hname, m.route, &alt)), true, &[&format!("{}:file-alt-spelling", hname)]);
+                            ctx.sample(&format!("{}:file-alt-spelling", hname), || json!({"handler": hname, "route": m.route, "uri": alt, "same_as": uri}));
+                            match m.call(&alt) {
+                                Err(p) => push(fail!("handler-panic", "{} panicked for {:?}: {}", hname, alt, p), m, &alt, &mut out),
+                                Ok(r2) => {
+                                    if u16::from(r2.status_code) != 200 || &r2.body != content || header(&r2, "Content-Type") != ct {
+                                        push(
+                                            fail!(
+                                                format!("file-not-served-alt-spelling:{}", hname.replace("(true)", "").replace("(false)", "")),
+                                                "{} at {} answered {} ({} bytes, Content-Type {:?}) for {:?}, which decodes once to the path of the existing file {:?} ({} bytes, served with {:?} as {:?})",
+                                                hname, m.route, u16::from(r2.status_code), r2.body.len(), header(&r2, "Content-Type"), alt, rel, content.len(), ct, uri
+                                            ),
+                                            m,
+                                            &alt,
+                                            &mut out,
+                                        );
+                                    }
+                                }
+                            }
+                        }
+                    }
                 }
             }
         }
@@ -400,6 +444,33 @@ pub fn check_tree(ctx: &Ctx, seed: u64, paths_per_mount: usize) -> Vec<(Fail, J)
                             None => {
                                 if status != 404 {
                                     push(fail!("dir-no-index", "{} at {} answered {} for {:?}; the directory has no index file (want 404)", hname, m.route, status, with_slash), m, &with_slash, &mut out);
+                                }
+                            }
+                        }
+                    }
+                }
+                // the slash form under other spellings (any byte, the final slash included, written as %XX): same answer
+                if !d.is_empty() {
+                    for k in 0..2 {
+                        let alt = if k == 0 { format!("{}{}", base, if rng.next() % 2 == 0 { "%2F" } else { "%2f" }) } else { format!("{}{}", m.prefix(), alt_spelling(&format!("{}/", d), &mut rng)) };
+                        if alt == with_slash {
+                            continue;
+                        }
+                        ctx.case(hash_of(&(seed, &hname, m.route, &alt, "idx-alt")), true, &[&format!("{}:dir-index-alt-spelling", hname)]);
+                        ctx.sample(&format!("{}:dir-index-alt-spelling", hname), || json!({"handler": hname, "route": m.route, "uri": alt, "same_as": with_slash}));
+                        match m.call(&alt) {
+                            Err(p) => push(fail!("handler-panic", "{} panicked for {:?}: {}", hname, alt, p), m, &alt, &mut out),
+                            Ok(r) => {
+                                if let Some(f) = confinement(&tree, m, &alt, &r) {
+                                    push(f, m, &alt, &mut out);
+                                }
+                                let status = u16::from(r.status_code);
+                                let ok = match idx {
+                                    Some(c) => status == 200 && &r.body == c,
+                                    None => status == 404,
+                                };
+                                if !ok {
+                                    push(fail!("dir-index-alt-spelling", "{} at {} answered {} ({} bytes) for {:?}, which decodes once to the directory path {:?} (want {})", hname, m.route, status, r.body.len(), alt, format!("{}/", d), if idx.is_some() { "200 with the index file" } else { "404: no index file" }), m, &alt, &mut out);
                                 }
                             }
                         }
